@@ -194,32 +194,53 @@ def suite(outdir, jobs):
     from collections import Counter
     print(Counter(v["status"] for v in res.values()))
 
-def check(outdir, mx):
+def check(outdir, mx, jobs=4):
+    """suite-surviving mutants against the mapped quick checks, `jobs` at a time: every worker has its own copy of
+    /verif (its own build, coq and evidence directories) and its own worktree of /repo (VERIF_REPO)"""
     index = {m["id"]: m for m in json.load(open(os.path.join(outdir, "index.json")))}
     suite_res = json.load(open(os.path.join(outdir, "suite.json")))
     res_path = os.path.join(outdir, "checks.json")
     res = json.load(open(res_path)) if os.path.exists(res_path) else {}
     todo = [i for i, v in suite_res.items() if v["status"] == "suite-passes" and i not in res][:mx]
-    for mid in todo:
-        m = index[mid]
-        if sh(f"git -C {REPO} status --porcelain -- src").stdout.strip():
-            print("/repo has local changes; refusing"); sys.exit(2)
-        a = sh(f"git -C {REPO} apply {os.path.join(outdir, mid + '.diff')}")
-        r = {}
-        try:
+    workers = []
+    for w in range(jobs):
+        vw, rw = f"/tmp/vw{w}", f"/tmp/mrepo{w}"
+        if not os.path.exists(vw):
+            sh(f"rsync -a --exclude .git --exclude replays --exclude seeded {VERIF}/ {vw}/")
+        if not os.path.exists(rw):
+            sh(f"git -C {REPO} worktree add --detach {rw} HEAD -q")
+        if os.path.exists(os.path.join(REPO, "Cargo.lock")):
+            shutil.copy(os.path.join(REPO, "Cargo.lock"), os.path.join(rw, "Cargo.lock"))   # untracked in the repository
+        workers.append((vw, rw))
+    import threading
+    lock = threading.Lock()
+    def worker(w):
+        vw, rw = workers[w]
+        for mid in todo[w::jobs]:
+            m = index[mid]
+            sh(f"git -C {rw} checkout -q -- .")
+            a = sh(f"git -C {rw} apply {os.path.join(outdir, mid + '.diff')}")
+            r = {}
             if a.returncode != 0:
-                res[mid] = dict(error="apply failed"); continue
-            for c in m["checks"]:
-                p = sh(f"{VERIF}/bin/check {c} quick", cwd=VERIF)
-                vio = [l for l in p.stdout.splitlines() if l.startswith("VIOLATION")]
-                r[c] = ("nfi" if vio and "no-failing-input-found" in vio[0] else ("input" if vio else "ok"))
-                if vio and "no-failing-input-found" not in vio[0]:
-                    break          # a failing input is enough
-        finally:
-            sh(f"git -C {REPO} checkout -- .")
-        res[mid] = r
-        json.dump(res, open(res_path, "w"), indent=1)
-        print(mid, m["old"][:60], "=>", m["new"][:60], r, flush=True)
+                r = dict(error="apply failed")
+            else:
+                env = dict(os.environ, VERIF_REPO=rw, VERIF_JOBS="6")
+                for c in m["checks"]:
+                    p = sh(f"{vw}/bin/check {c} quick", cwd=vw, env=env)
+                    vio = [l for l in p.stdout.splitlines() if l.startswith("VIOLATION")]
+                    r[c] = ("nfi" if vio and "no-failing-input-found" in vio[0] else ("input" if vio else ("ok" if p.returncode == 0 else "error")))
+                    if vio and "no-failing-input-found" not in vio[0]:
+                        break          # a failing input is enough
+            sh(f"git -C {rw} checkout -q -- .")
+            with lock:
+                res[mid] = r
+                json.dump(res, open(res_path, "w"), indent=1)
+                print(mid, m["old"][:60], "=>", m["new"][:60], r, flush=True)
+    with ThreadPoolExecutor(max_workers=jobs) as ex:
+        list(ex.map(worker, range(jobs)))
+    for (vw, rw) in workers:
+        sh(f"git -C {REPO} worktree remove --force {rw}")
+        shutil.rmtree(vw, ignore_errors=True)
 
 def report(outdir):
     index = {m["id"]: m for m in json.load(open(os.path.join(outdir, "index.json")))}
